@@ -27,6 +27,7 @@ func specMs(d time.Duration) float64 { return ConvertDurationToMs(d) }
 //@ modifies nothing
 
 //@ func clipResults
+//@ inline
 //@ requires[pre.len]       int(minTTL) < len(results)
 //@ requires[pre.low]       forall(i, 0, int(minTTL), results[i] == nil)
 //@ ensures[C03.nonempty]   len(ret0) >= 1
@@ -57,3 +58,48 @@ func specMs(d time.Duration) float64 { return ConvertDurationToMs(d) }
 
 //@ func CheckProbeRetryable
 //@ ensures[C09.retry]     ret0 == (chain(err, *ReceiveProbeNoPktError) || chain(err, *BadPacketError))
+
+// ---- the driver interface protocol, as the engines rely on it. Each driver's methods are verified against
+// their own (stronger) contracts; A-DRV: driver methods do not write memory the engines read (their locals and
+// the ProbeResponse objects already delivered) — each driver's verified frame excludes both.
+
+//@ iface TracerouteDriver.SendProbe
+//@ ensures[drv.send.log]   sendN == old(sendN) + 1 && sel(sendLog, old(sendN)) == int(ttl) && sel(sendClock, old(sendN)) == old(now())
+//@ ensures[drv.send.clock] now() >= old(now())
+//@ ensures[drv.send.frame] forall(k, 0, old(sendN), sel(sendLog, k) == old(sel(sendLog, k))) && forall(k, 0, old(sendN), sel(sendClock, k) == old(sel(sendClock, k)))
+//@ modifies ghost clock, ghost sendN, ghost sendLog, ghost sendClock
+
+//@ iface TracerouteDriver.ReceiveProbe
+//@ ensures[drv.recv.xor]   (ret0 == nil) != (ret1 == nil)
+//@ ensures[drv.recv.fresh] ret0 != nil ==> fresh(ret0)
+//@ ensures[drv.recv.clock] now() >= old(now())
+//@ modifies ghost clock
+
+//@ iface TracerouteDriver.GetDriverInfo
+//@ modifies nothing
+
+//@ func TracerouteSerial
+//@ safety C03
+//@ ghost sendN Int
+//@ ghost sendLog (Array Int Int)
+//@ ghost sendClock (Array Int Int)
+//@ requires[pre.nonnil]       t != nil && ctx != nil
+//@ requires[pre.ghost]        sendN >= 0
+//@ ensures[C10.ser.atom]      ret1 != nil ==> ret0 == nil
+//@ ensures[C03.ser.len]       ret1 == nil ==> len(ret0) >= 1 && len(ret0) <= int(p.MaxTTL)-int(p.MinTTL)+1
+//@ ensures[C03+C01.ser.ttl]   ret1 == nil ==> forall(k, 0, len(ret0), ret0[k] != nil ==> int(ret0[k].TTL) == int(p.MinTTL)+k)
+//@ ensures[C03.ser.onlylast]  ret1 == nil ==> forall(k, 0, len(ret0)-1, !specIsDest(ret0[k]))
+//@ ensures[C03.ser.extent]    ret1 == nil ==> specIsDest(ret0[len(ret0)-1]) || len(ret0) == int(p.MaxTTL)-int(p.MinTTL)+1
+//@ ensures[C19.ser.valid]     ret1 == nil ==> p.MinTTL >= 1 && p.MinTTL <= p.MaxTTL
+//@ ensures[C06.ser.order]     (sendN == old(sendN) || sendN - old(sendN) <= int(p.MaxTTL)-int(p.MinTTL)+1) && forall(k, old(sendN), sendN, sel(sendLog, k) == int(p.MinTTL) + (k - old(sendN)))
+//@ ensures[C06.ser.pace]      forall(k, old(sendN)+1, sendN, sel(sendClock, k) >= sel(sendClock, k-1) + int(p.SendDelay))
+//@ ensures[C19.ser.cover]     ret1 == nil && len(ret0) == int(p.MaxTTL)-int(p.MinTTL)+1 && !specIsDest(ret0[len(ret0)-1]) ==> sendN - old(sendN) == int(p.MaxTTL)-int(p.MinTTL)+1
+//@ loop 1 invariant[i.range]  int(p.MinTTL) <= i && i <= int(p.MaxTTL)+1 && p.MinTTL >= 1 && p.MinTTL <= p.MaxTTL
+//@ loop 1 invariant[i.table]  len(results) == int(p.MaxTTL)+1 && fresh(results)
+//@ loop 1 invariant[C01.slot] forall(k, 0, len(results), results[k] != nil ==> int(results[k].TTL) == k && int(p.MinTTL) <= k)
+//@ loop 1 invariant[i.nodest] forall(k, 0, len(results), !specIsDest(results[k]))
+//@ loop 1 invariant[C06.order] sendN == old(sendN) + (i - int(p.MinTTL)) && forall(k, old(sendN), sendN, sel(sendLog, k) == int(p.MinTTL) + (k - old(sendN)))
+//@ loop 1 invariant[C06.pace] forall(k, old(sendN)+1, sendN, sel(sendClock, k) >= sel(sendClock, k-1) + int(p.SendDelay))
+//@ loop 1 invariant[C06.last] sendN > old(sendN) ==> now() >= sel(sendClock, sendN-1) + int(p.SendDelay)
+//@ loop 2 invariant[j.probe]  probe != nil ==> p.MinTTL <= probe.TTL && probe.TTL <= p.MaxTTL
+//@ loop 2 invariant[j.clock]  now() >= sel(sendClock, sendN-1)
